@@ -50,7 +50,7 @@ def status_gate(run, U, fn, rule="R-PRINTGATE"):
         is_ok = r[0] == "ctor" and r[1].endswith("::Ok")
         gate = None
         for c in p.conds:
-            if c[0] == "if":
+            if c[0] in ("if", "guard"):
                 t, pol = truth(c[1], c[2])
                 if suffix(t, "::StatusCode::is_success") and sends and any(x is sends[-1] or same(x, sends[-1]) for x in subterms(t)):
                     gate = pol
